@@ -101,7 +101,10 @@ def run(ctx):
         ctx.fail_closed("SAMEFILE", "fiin::FileInfo::new not found")
     else:
         found = False
-        for p in Explorer(nb).explore():
+        all_paths = []
+        for body_ in prog.deep_bodies("fiin::FileInfo::new"):
+            all_paths += Explorer(body_).explore()
+        for p in all_paths:
             for l, e in p.env.loc.items():
                 for t in walk(e):
                     if isinstance(t, tuple) and t[0] == "agg" and t[1] == "adt" and t[2].startswith("fiin::FIINEntry") and not found:
@@ -112,6 +115,13 @@ def run(ctx):
                         ok = bool(reads_size) and bool(reads_sha) and reads_size[0] == reads_sha[0]
                         has_len = any(isinstance(x, tuple) and (x[0] == "len" or (x[0] == "call" and x[1].endswith("::len"))) for x in walk(size_e))
                         has_sha = any(isinstance(x, tuple) and x[0] == "call" and "Sha1::from" in x[1] for x in walk(sha_e)) and any(isinstance(x, tuple) and x[0] == "call" and x[1].endswith("::digest") for x in walk(sha_e))
+                        if not has_sha and reads_size and any(isinstance(x, tuple) and x[0] == "call" and x[1].endswith("::digest") for x in walk(sha_e)) and any(isinstance(x, tuple) and x[0] == "call" and x[1].endswith("Sha1::new") for x in walk(sha_e)):
+                            # Sha1::from(buf) spelled as new() followed by update(buf): the update on this path feeds the same buffer
+                            ups = [a for (_bb, callee, a, _r) in p.events if callee.endswith("Sha1::update")]
+                            fed = [x for a in ups for y in a for x in walk(y) if isinstance(x, tuple) and x[0] == "call" and x[1].endswith("fs::read")]
+                            if len(ups) == 1 and fed and fed[0] == reads_size[0]:
+                                has_sha = True
+                                ok = True
                         ctx.ob("SAMEFILE", "size-and-digest", ok and has_len and has_sha, f"file_size = {show(size_e)[:90]}; sha1 = {show(sha_e)[:110]}; both must come from the same read() buffer (len / Sha1::from..digest)", nb.file, nb.line, sample=True)
                         path_arg = reads_size[0][2][0] if reads_size else None
                         fn_calls = [x for x in walk(name_e) if isinstance(x, tuple) and x[0] == "call" and x[1].endswith("Path::file_name")]
